@@ -72,9 +72,20 @@ func (e *Engine) callFunction(st *State, fn *ssa.Function, args []Value, bind []
 func (e *Engine) runBlock(st *State, fr *Frame, b *ssa.BasicBlock, pred *ssa.BasicBlock) {
 	// remember that the body of a loop handled by the cut-point rule was entered on this path: a path that then
 	// reaches the end of the function left the loop from inside its body (break / return)
+	// (A compound loop condition - `for err == nil && i < n` - spreads over several blocks: blocks that only compute a
+	// condition and branch continue the header; leaving the loop from one of them is the loop's normal exit.)
 	if pred != nil && b != pred {
-		if _, active := st.loopMark[fmt.Sprintf("genloop/%d/%d", fr.id, pred.Index)]; active && isLoopHeader(pred) && loopBlocks(pred)[b] {
-			st.bodyEntered = true
+		hdr := pred
+		if st.condChainOf != nil && st.condChainAt == pred {
+			hdr = st.condChainOf
+		}
+		st.condChainOf, st.condChainAt = nil, nil
+		if _, active := st.loopMark[fmt.Sprintf("genloop/%d/%d", fr.id, hdr.Index)]; active && isLoopHeader(hdr) && loopBlocks(hdr)[b] {
+			if pureConditionBlock(b) {
+				st.condChainOf, st.condChainAt = hdr, b
+			} else {
+				st.bodyEntered = true
+			}
 		}
 	}
 	if e.loopsSeen != nil && isLoopHeader(b) {
@@ -1244,5 +1255,29 @@ func (e *Engine) sliceOp(st *State, fr *Frame, in *ssa.Slice) bool {
 	}
 	st.wregs(fr)[in] = e.havoc(st, in.Type(), "slice")
 	st.notes = append(st.notes, "unmodelled slice op at "+e.pos(in.Pos()))
+	return true
+}
+
+// pureConditionBlock: the block only computes values without effects and ends in a conditional branch.
+func pureConditionBlock(b *ssa.BasicBlock) bool {
+	if len(b.Instrs) == 0 {
+		return false
+	}
+	if _, ok := b.Instrs[len(b.Instrs)-1].(*ssa.If); !ok {
+		return false
+	}
+	for _, in := range b.Instrs[:len(b.Instrs)-1] {
+		switch x := in.(type) {
+		case *ssa.BinOp, *ssa.UnOp, *ssa.FieldAddr, *ssa.IndexAddr, *ssa.Index, *ssa.Field, *ssa.Phi, *ssa.Convert,
+			*ssa.ChangeType, *ssa.Extract, *ssa.Slice, *ssa.DebugRef:
+		case *ssa.Call:
+			bi, ok := x.Call.Value.(*ssa.Builtin)
+			if !ok || (bi.Name() != "len" && bi.Name() != "cap") {
+				return false
+			}
+		default:
+			return false
+		}
+	}
 	return true
 }
